@@ -1,7 +1,9 @@
 (* C12 — the BAM record stream reader and the BGZF frame reader are compositions of the
    schedule-independent primitives, hence schedule independent: closed forms on the data. *)
 From Coq Require Import List NArith Arith Bool Lia.
-From NV Require Import Io.Source Io.ReadExact Io.ReadExactProofs Io.Run.
+From NV Require Import Io.Source Io.ReadExact Io.ReadExactProofs Io.BufReader Io.BufReaderProofs
+  Io.FastaIndex Io.FastaIndexProofs Io.Run.
+From NV Require Fasta.Layout Fasta.Indexer.
 Import ListNotations.
 
 Lemma rep_src_fuel : forall s d m n, rep_src s d m -> m + n < src_fuel s n.
@@ -111,4 +113,16 @@ Proof.
            ++ exists s2, m2. auto.
         -- exists s2, m2. auto.
     + exists s1, m1. auto.
+Qed.
+
+(* ---- the whole FASTA indexer on a scripted source behind a BufReader: C11's index_file *)
+Theorem run_index_file_spec : forall data sc cap, 1 <= cap ->
+  exists st', run_index_file cap (mkSource data sc) = (Indexer.index_file data, st').
+Proof.
+  intros data sc cap Hcap. unfold run_index_file, Indexer.index_file. cbn [s_data].
+  apply (d_index_loop_spec src_read rep_src src_simulates cap Hcap _ _ _ ([], mkSource data sc) data
+           (n_interrupted sc) 0%N).
+  - exists data. cbn [fst snd app]. split; [reflexivity|]. split; reflexivity.
+  - lia.
+  - unfold b_fuel, src_fuel. cbn [fst snd s_data s_script length]. lia.
 Qed.
